@@ -101,8 +101,8 @@ class LibMixin:
         if items is None:
             # variadic slice of unknown length: identity of the whole list
             r = self.string_with_ident(st, joinid(self.ident_of(st, parts)))
-            k = fresh('k!j')
-            st.assume(z3.Implies(r.len == 0, z3.ForAll([k], z3.Implies(z3.And(0 <= k, k < parts.len), z3.Select(parts.arrs[2], parts.off + k) == 0))))
+            k = fresh('k!j')      # absolute index into the slice's array (same trigger shape as contract quantifiers)
+            st.assume(z3.Implies(r.len == 0, z3.ForAll([k], z3.Implies(z3.And(parts.off <= k, k < parts.off + parts.len), z3.Select(parts.arrs[2], k) == 0))))
             return r
         r = self.string_with_ident(st, joinid(chain([self.ident_of(st, x) for x in items])))
         st.assume(z3.Implies(r.len == 0, z3.And([x.len == 0 for x in items])))
